@@ -1037,7 +1037,7 @@ class SGen:
         self.feats.add("while")
         self.feats.add("literal:promoted")
         post = []
-        if self.chance(4) and env[state[0]].dtype in (np.float32, np.float64, np.int64) and isinstance(env.get("go"), np.ndarray):
+        if self.chance(4) and state[0] in env and env[state[0]].dtype in (np.float32, np.float64, np.int64) and isinstance(env.get("go"), np.ndarray):
             # the condition variable is an ordinary variable: its value AFTER the loop (False unless the loop ended through `break`) is read
             st_post = Assign([state[0]], Bin("+", Var(state[0]), Call("Cast", [Var("go")], {"to": ONNX_ENUM[NAME_OF[env[state[0]].dtype]]})))
             try:
